@@ -788,6 +788,7 @@ struct Inst {
 	Ctx ctx { 7 };
 	bool loggerOn = false;
 	unsigned opCount = 0, ctorCount = 0;	// history counters that select the API variants (copied along with the machine)
+	unsigned char prevBytes[4] = { 0, 0, 0, 0 }; bool havePrev = false;		// the buffer of this instance's previous save()
 #if VH_LOG
 	Logger logger;
 #endif
@@ -968,6 +969,7 @@ static bool execOp(int idx, const Op& o) {
 		Inst* src = (o.a >= 0 && o.a < MAX_INST) ? g_inst[o.a] : nullptr;
 		if (src && src->m) {
 			in.ctx = src->ctx; in.loggerOn = src->loggerOn; in.opCount = src->opCount; in.ctorCount = src->ctorCount;
+			std::memcpy(in.prevBytes, src->prevBytes, sizeof in.prevBytes); in.havePrev = src->havePrev;
 			std::memset(in.storage, 0x5C, sizeof in.storage);
 			g_curFsm = in.storage;
 #if VH_CTX != 2		// (the library's move constructor does not compile for reference contexts)
@@ -1015,12 +1017,14 @@ static bool execOp(int idx, const Op& o) {
 		cm.save(box.buf);
 		// the buffer's own comparison operators against the previously saved buffer must agree with the bytes
 		{
-			static FSM::Instance::SerialBuffer prevBuf; static bool havePrev = false;
-			if (havePrev) {
+			// (the buffer compared with is the instance's own previous one - lanes and copies must stay in step)
+			if (in.havePrev) {
+				FSM::Instance::SerialBuffer prevBuf;
+				std::memcpy(prevBuf.data(), in.prevBytes, sizeof(prevBuf.data()));
 				const bool same = std::memcmp(prevBuf.data(), box.buf.data(), sizeof(box.buf.data())) == 0;
 				if ((prevBuf == box.buf) != same || (prevBuf != box.buf) == same || (box.buf == prevBuf) != same || (box.buf != prevBuf) == same) cmpOk = 0;
 			}
-			prevBuf = box.buf; havePrev = true;
+			std::memcpy(in.prevBytes, box.buf.data(), sizeof(box.buf.data())); in.havePrev = true;
 		}
 		r = 0;
 		for (size_t n = 0; n < sizeof(box.buf.data()); ++n) r |= static_cast<long>(box.buf.data()[n]) << (8 * n);
